@@ -449,7 +449,9 @@ class Program:
             op = self.followup(prev, sess)
             if op is not None:
                 return op, True
-        if 0 < i < self.n_prefix and rng.random() < 0.10 and sess.sess.events and sess.sess.events[-1][2] == "ok":
+        last_kind = (getattr(self, "last_op", None) or {}).get("op", "")
+        if 0 < i < self.n_prefix and rng.random() < (0.35 if last_kind.startswith("evo_") else 0.10) \
+                and sess.sess.events and sess.sess.events[-1][2] == "ok":
             # the script repeats its previous call verbatim (a loop body executed twice); if the repetition does
             # not fit any more it is refused and thereby becomes the terminal fault
             last = getattr(self, "last_op", None)
